@@ -21,7 +21,11 @@ Oracle (from how the response was built, not from re-running twisted's math):
     second of the lifetime, header-level damage)  ->  either, but a password
     the client did not use is never accepted;
   * nothing but LoginFailed may be raised by decode, nothing at all by
-    checkPassword.
+    checkPassword;
+  * every decoded credentials object is judged through both public verification
+    methods: checkPassword(password) and checkHash(H(username:realm:password))
+    (IUsernameDigestHash, the path of a checker that stores hashes) -- the same
+    verdict is required from both.
 """
 import base64
 import binascii
@@ -315,43 +319,56 @@ def respond(ctx, case, fac, route, algo, realm, challenges, now, spec):
 
     tag = ",".join(sorted(set(definite))) or ("either:" + ",".join(sorted(set(either + header_level))) if (either or header_level) else "honest")
     cands = [pw] + [p for p in spec.get("others", [b"", b"wrong"]) if p != pw]
-    for p in cands:
-        if creds is None:
-            got = False
-        else:
-            try:
-                got = creds.checkPassword(p)
-            except Exception as e:
-                name = _exc_name(e)
-                f = creds.fields
-                al = f.get("algorithm", b"md5").lower()
-                if name == "KeyError" and al not in (b"md5", b"sha", b"md5-sess"):
-                    ctx.violation("checkPassword-KeyError-on-unknown-algorithm", case, f"{header!r}: {e!r}")
-                if name == "TypeError" and al in (b"md5", b"sha", b"md5-sess"):
-                    if "uri" not in f:
-                        ctx.violation("checkPassword-TypeError-on-missing-uri", case, f"{header!r}: {e!r}")
-                    if al == b"md5-sess" and "cnonce" not in f:
-                        ctx.violation("checkPassword-TypeError-on-md5-sess-without-cnonce", case, f"{header!r}: {e!r}")
-                    if f.get("qop") == b"auth-int":
-                        ctx.violation("checkPassword-TypeError-on-qop-auth-int", case, f"{header!r}: {e!r}")
-                ctx.violation(f"checkPassword-raises-{name}[{tag}]", case,
-                              f"header {header!r}: checkPassword({p!r}) raised {e!r}")
-            if got is not True and got is not False:
-                ctx.violation("checkPassword-not-bool", case, f"{got!r}")
-        if p != pw:
-            if got:
-                ctx.violation("accepts-password-the-client-did-not-use", case,
-                              f"header {header!r}: checkPassword({p!r}) is True, client used {pw!r}")
-            continue
-        if definite:
-            if got:
-                ctx.violation(f"accepted-despite[{','.join(sorted(set(definite)))}]", case,
-                              f"header {header!r} from {from_addr!r} elapsed {elapsed}: accepted; alterations {sorted(set(definite))}")
-        elif not either and not header_level:
-            if not got:
-                ctx.violation(f"honest-response-rejected[{use_algo},{form}]", case,
-                              f"header {header!r} method {method!r} from {from_addr!r} elapsed {elapsed}: "
-                              f"{'LoginFailed' if creds is None else 'checkPassword False'}")
+
+    def pre_ha1(p):
+        # what a checker that stores H(username:realm:password) hands to checkHash (IUsernameDigestHash)
+        al = creds.fields.get("algorithm", b"md5").lower()
+        return _h("sha" if al == b"sha" else "md5", creds.username + b":" + realm + b":" + p)
+
+    # the same verdict is required through both public verification methods
+    for vname, pfx in (("checkPassword", ""), ("checkHash", "checkHash-")):
+        for p in cands:
+            if creds is None:
+                got = False
+            else:
+                try:
+                    got = creds.checkPassword(p) if vname == "checkPassword" else creds.checkHash(pre_ha1(p))
+                except Exception as e:
+                    name = _exc_name(e)
+                    f = creds.fields
+                    al = f.get("algorithm", b"md5").lower()
+                    if vname == "checkPassword":
+                        if name == "KeyError" and al not in (b"md5", b"sha", b"md5-sess"):
+                            ctx.violation("checkPassword-KeyError-on-unknown-algorithm", case, f"{header!r}: {e!r}")
+                        if name == "TypeError" and al in (b"md5", b"sha", b"md5-sess"):
+                            if "uri" not in f:
+                                ctx.violation("checkPassword-TypeError-on-missing-uri", case, f"{header!r}: {e!r}")
+                            if al == b"md5-sess" and "cnonce" not in f:
+                                ctx.violation("checkPassword-TypeError-on-md5-sess-without-cnonce", case, f"{header!r}: {e!r}")
+                            if f.get("qop") == b"auth-int":
+                                ctx.violation("checkPassword-TypeError-on-qop-auth-int", case, f"{header!r}: {e!r}")
+                    ctx.violation(f"{vname}-raises-{name}[{tag}]", case,
+                                  f"header {header!r}: {vname}({'hash of ' if pfx else ''}{p!r}) raised {e!r}")
+                if got is not True and got is not False:
+                    ctx.violation(f"{vname}-not-bool", case, f"{got!r}")
+            if p != pw:
+                if got:
+                    ctx.violation(pfx + "accepts-password-the-client-did-not-use", case,
+                                  f"header {header!r}: {vname}({'hash of ' if pfx else ''}{p!r}) is True, client used {pw!r}")
+                continue
+            if definite:
+                if got:
+                    ctx.violation(f"{pfx}accepted-despite[{','.join(sorted(set(definite)))}]", case,
+                                  f"header {header!r} from {from_addr!r} elapsed {elapsed}: accepted by {vname}; "
+                                  f"alterations {sorted(set(definite))}")
+            elif not either and not header_level:
+                if not got:
+                    ctx.violation(f"{pfx}honest-response-rejected[{use_algo},{form}]", case,
+                                  f"header {header!r} method {method!r} from {from_addr!r} elapsed {elapsed}: "
+                                  f"{'LoginFailed' if creds is None else vname + ' False'}")
+        if creds is not None:
+            ctx.count(f"{vname}: verdict checked on decoded credentials, algorithm {use_algo}, "
+                      + ("must-reject" if definite else "either" if (either or header_level) else "must-accept"))
     # bookkeeping
     ctx.count("response: " + ("must-reject" if definite else "either" if (either or header_level) else "must-accept"))
     ctx.count(f"response: {use_algo}/{form}/{route}")
@@ -362,6 +379,7 @@ def respond(ctx, case, fac, route, algo, realm, challenges, now, spec):
         ctx.nontrivial((algo, route, spec, elapsed, repr(from_addr), repr(ch["addr"])))
     if len(set(definite)) >= 2:
         ctx.sample(case)
+    return id(ch), ("must-reject" if definite else "either" if (either or header_level) else "must-accept"), sorted(set(definite))
 
 
 def run_case(ctx, case):
@@ -391,6 +409,7 @@ def run_case(ctx, case):
         clock = [T0 + case.get("t0", 0)]
         inner._getTime = lambda: clock[0]
         challenges = []
+        answered = set()
         for op in case["ops"]:
             if op[0] == "ch":
                 addr = ADDRS[op[1] % len(ADDRS)]
@@ -411,7 +430,12 @@ def run_case(ctx, case):
                 clock[0] += op[1]
             elif op[0] == "resp":
                 if challenges:
-                    respond(ctx, case, fac, route, algo, realm, challenges, clock[0], op[1])
+                    cid, verdict, why = respond(ctx, case, fac, route, algo, realm, challenges, clock[0], op[1])
+                    if cid in answered:
+                        ctx.count("history: response to a challenge already answered successfully: " + verdict
+                                  + (" (expired only)" if why == ["expired"] else ""))
+                    if verdict == "must-accept":
+                        answered.add(cid)
             else:
                 raise AssertionError(op)
     finally:
@@ -480,6 +504,16 @@ def enum_cases():
                     for chaddr in (0, 2, 3):
                         yield dict(algo=algo, realm=b"r", key=b"k" * 12, rand=frm, route=route,
                                    ops=[["ch", chaddr], ["adv", 1], ["resp", base_spec(form=form, **{"from": frm})]])
+                # two responses on one challenge: what the first one did must not change the verdict on the second
+                firsts = [dict(), dict(pw=b"other pw"), {"from": 2}, dict(alter=[["opaque-hex", 3, 1]]), dict(alter=[["field-char", "response", 2, 1]])]
+                seconds = [dict(), dict(pw=b"other pw"), {"from": 2}, dict(alter=[["opaque-retime", 5000]]), dict(alter=[["nonce-mut", 1, 1]]),
+                           dict(alter=[["field-set", "uri", b"/elsewhere"]])]
+                for fi, first in enumerate(firsts):
+                    for dt in (0, LIFETIME - 2, LIFETIME + 2, 10 * LIFETIME):
+                        for se, second in enumerate(seconds):
+                            yield dict(algo=algo, realm=b"r", key=b"k" * 12, rand=fi * 7 + se, route=route,
+                                       ops=[["ch", 1], ["adv", 1], ["resp", base_spec(form=form, **first)], ["adv", dt],
+                                            ["resp", base_spec(form=form, **second)]])
                 for dt in (0, 1, LIFETIME - 2, LIFETIME - 1, LIFETIME - 0.5, LIFETIME, LIFETIME + 0.5, LIFETIME + 1,
                            LIFETIME + 2, 10 * LIFETIME, 10 ** 9):
                     for t0 in (0, 0.75):
@@ -584,7 +618,7 @@ def run(ctx):
         enumerate_run(ctx, pair_cases(("md5", "auth", "cred")), run_case)
         if ctx.has_violation():
             return
-        hyp_run(ctx, strategies(), run_case, 1500, label="histories")
+        hyp_run(ctx, strategies(), run_case, 3000, label="histories")
 
 
 def _hyp_shard(sub, i):
